@@ -579,6 +579,7 @@ func lfVariants(d, other *world.DID, rng *rand.Rand, tier string) []lfVariant {
 	alt("value:extra-member", func(m map[string]interface{}) { m["extra"] = "x" })
 	alt("value:type-create", func(m map[string]interface{}) { m["type"] = "create" })
 	alt("value:type-update", func(m map[string]interface{}) { m["type"] = "update" })
+	alt("value:type-free-text", func(m map[string]interface{}) { m["type"] = "anything at all" })
 	alt("value:delta-other", func(m map[string]interface{}) { m["delta"] = og["delta"] })
 	alt("value:delta-commitment-other", func(m map[string]interface{}) {
 		m["delta"].(map[string]interface{})["updateCommitment"] = og["delta"].(map[string]interface{})["updateCommitment"]
@@ -776,7 +777,11 @@ func (c *c08) longFormCase(d *world.DID, v lfVariant, cfg lfConfig, originOK fun
 		if why := selfCertified(did); why != "" {
 			c.r.Direct = append(c.r.Direct, out.Direct{Oracle: "resolved_long_form_is_self_certified", What: why, Case: desc})
 		}
-		if v.label != "genuine" && !v.rederived && !strings.HasPrefix(v.label, "value:type-") {
+		if v.label != "genuine" && !v.rederived {
+			if strings.HasPrefix(v.label, "value:type-") {
+				// known finding F18: a "type" member added to the embedded initial state is accepted
+				desc["class"] = "long_form_initial_state_with_an_added_type_member_resolves"
+			}
 			c.r.Direct = append(c.r.Direct, out.Direct{Oracle: "altered_long_form_is_rejected", What: v.label + " resolved", Case: desc})
 		}
 	}
